@@ -952,6 +952,22 @@ def get_logical_line(lines, idx):
     return line, n, start
 
 
+def source_lines(src):
+    """Splits source text into physical lines the way the tokenizer counts
+    them: at ``\\n`` (or ``\\r\\n``) only.
+
+    ``str.splitlines()`` also breaks at form feed, vertical tab, the
+    file/group/record separators, NEL and the Unicode line/paragraph
+    separators. Those are ordinary characters of a line for the parser, so a
+    table built with ``splitlines()`` no longer lines up with the line
+    numbers the parser reports.
+    """
+    lines = src.split("\n")
+    if lines[-1] == "":
+        lines.pop()
+    return [line[:-1] if line.endswith("\r") else line for line in lines]
+
+
 def replace_logical_line(lines, logical, idx, n):
     """Replaces lines at idx that may end in line continuation with a logical
     line that spans n lines.
